@@ -43,6 +43,8 @@ UNIVERSES = {
     "schema_words": {"w": ["alpha", "beta_2", "A1"], "a": [1, 10], "flag": [True, False]},
     "pathy": {"s": ["x", "./x", ".", "x/y", "x//y", "x/", "y/../x"], "a": [1, 2]},
     "escaping": {"s": ["ok", "../up", "../../up2", ".."], "a": [1]},
+    # a leaf (a/1), paths below it (a/1/b/2) and siblings that sort between the two as strings
+    "leaf_siblings": {"a": [1, 1.0, "1 x", "1-x", "1.x"], "b": [2, 3]},
 }
 
 
@@ -72,7 +74,7 @@ class Engine(EngineBase):
         n = rng.choice([0, 1, 1, 2, 2, 3, 4, 5, 8, 12])
         sps = []
         tries = 0
-        hetero = rng.random() < 0.25 and not schema_focus
+        hetero = (rng.random() < 0.25 or (uni == "leaf_siblings" and rng.random() < 0.7)) and not schema_focus
         while len(sps) < n and tries < 200:
             tries += 1
             sp = {}
@@ -84,6 +86,14 @@ class Engine(EngineBase):
                 continue
             if all(not same(sp, s) for s in sps):
                 sps.append(sp)
+        if uni == "leaf_siblings" and rng.random() < 0.6:
+            # the constellation itself: a leaf, a path below it, and a sibling whose path sorts between them
+            sib = {"a": rng.choice([1.0, "1 x", "1-x", "1.x"])}
+            if rng.random() < 0.4:
+                sib["b"] = rng.choice([2, 3])
+            core = [{"a": 1}, {"a": 1, "b": rng.choice([2, 3])}, sib]
+            sps = core + [x for x in sps if all(not same(x, c) for c in core)][:rng.randrange(0, 3)]
+            rng.shuffle(sps)
         if rng.random() < 0.12 and not schema_focus:
             sps.append({})  # the empty state point is a valid state point (and makes the key sets heterogeneous)
         jobs = []
